@@ -46,6 +46,9 @@ var reservedIdentifiers = map[string]struct{}{
 	"Decode":   {},
 	"String":   {},
 	"Equals":   {},
+
+	// Generated unless --no-zap is given.
+	"MarshalLogObject": {},
 }
 
 // fieldGroupGenerator is responsible for generating code for FieldGroups.
@@ -69,7 +72,7 @@ type fieldGroupGenerator struct {
 
 func (f fieldGroupGenerator) checkReservedIdentifier(name string) error {
 	_, match := reservedIdentifiers[name]
-	match = match || (f.IsException && name == "Error")
+	match = match || (f.IsException && (name == "Error" || name == "ErrorName"))
 	if match {
 		return fmt.Errorf("%q is a reserved ThriftRW identifier", name)
 	}
